@@ -98,6 +98,76 @@ def _single_return(fn):
     return stmts[-1], decls
 
 
+def _straight_line(fn, args, ctx, preset=None):
+    """a helper whose body is a straight line of local declarations, assignments to its own locals / value parameters and a final return
+    (a SWAR popcount, a mask built in steps): executed statement by statement with the conversions clang recorded"""
+    b = ir.body(fn)
+    if b is None:
+        raise Unknown("callee %s has no body" % fn.get("name"))
+    ps = ir.params(fn)
+    if len(args) > len(ps):
+        raise Unknown("argument count")
+    sub = Ctx(ctx.d, {}, ctx.members, ctx.depth + 1)
+    sub.arrays, sub.objects, sub.call_values = ctx.arrays, ctx.objects, ctx.call_values
+    for p, a in zip(ps, args):
+        if "&" in ir.qtype(p) and "const" not in ir.qtype(p):
+            raise Unknown("reference parameter of %s" % fn.get("name"))
+        sub.env[p.get("id")] = conv(ev(a, ctx), ir.qtype(p)) if rng(ir.qtype(p)) else ev(a, ctx)
+    if preset:
+        sub.env.update(preset)
+    own = {p.get("id") for p in ps}
+    for s_ in ir.kids(b):
+        k = s_.get("kind")
+        if k == "DeclStmt":
+            for v in ir.kids(s_):
+                if v.get("kind") == "VarDecl":
+                    if not ir.ekids(v):
+                        raise Unknown("uninitialised local")
+                    sub.env[v.get("id")] = conv(ev(ir.ekids(v)[-1], sub), ir.qtype(v))
+                    own.add(v.get("id"))
+            continue
+        if k == "ReturnStmt":
+            rk = ir.ekids(s_)
+            if not rk:
+                raise Unknown("void helper")
+            v = ev(rk[0], sub)
+            ctx.ub += sub.ub
+            return v
+        if k in ("NullStmt", "TypeAliasDecl", "StaticAssertDecl"):
+            continue
+        n = ir.strip(s_)
+        if n.get("kind") in ("BinaryOperator", "CompoundAssignOperator") and (n.get("opcode") or "").endswith("=") and n.get("opcode") not in ("==", "!=", "<=", ">="):
+            lhs = ir.strip(ir.ekids(n)[0])
+            rid = (lhs.get("referencedDecl") or {}).get("id") if lhs.get("kind") == "DeclRefExpr" else None
+            if rid not in own:
+                raise Unknown("store to something that is not a local of %s" % fn.get("name"))
+            rhs = ev(ir.ekids(n)[1], sub)
+            op = n.get("opcode")
+            if op == "=":
+                val = rhs
+            else:
+                ctype = (n.get("computeResultType") or {}).get("qualType") or ir.qtype(n)
+                ltype = (n.get("computeLHSType") or {}).get("qualType") or ctype
+                cur = conv(sub.env[rid], ltype)
+                o = op[:-1]
+                if o in ("<<", ">>"):
+                    r = rng(ltype)
+                    width = (r[1] - r[0] + 1).bit_length() - 1
+                    if rhs < 0 or rhs >= width:
+                        raise UB("shift by %d in a %d-bit type" % (rhs, width))
+                    val = conv(cur << rhs, ctype) if o == "<<" else cur >> rhs
+                elif o in ("+", "-", "*"):
+                    val = checked({"+": cur + rhs, "-": cur - rhs, "*": cur * rhs}[o], ctype, o)
+                elif o in ("&", "|", "^"):
+                    val = conv({"&": cur & rhs, "|": cur | rhs, "^": cur ^ rhs}[o], ctype)
+                else:
+                    raise Unknown("compound operator %s" % op)
+            sub.env[rid] = conv(val, ir.qtype(lhs))
+            continue
+        raise Unknown("statement %s in helper %s" % (k, fn.get("name")))
+    raise Unknown("helper %s does not end in a return" % fn.get("name"))
+
+
 def ev(n, ctx):
     k = n.get("kind")
     ks = ir.ekids(n)
@@ -239,7 +309,7 @@ def ev(n, ctx):
                 raise Unknown("member call on another object")
         ret, decls = _single_return(fn)
         if ret is None:
-            raise Unknown("callee %s is not a single-return helper" % fn.get("name"))
+            return _straight_line(fn, ks[1:], ctx)
         ps = ir.params(fn)
         args = ks[1:]
         if len(args) > len(ps):
